@@ -29,6 +29,11 @@ def model(c, runs):
              cfg=cfg_text(constants=dict(one, OpsA={"send_err"}, Codes={2}, FixCredit=False, SendN=2), invariants=["EveryByteCredited"])),
         dict(name="liveness: window 3 packet 2 threshold 0, stdout+stderr, types 1,2 credited", module="Channel",
              cfg=cfg_text(constants=dict(one, OpsA={"sendall", "sendall_err"}, Codes={1, 2}, ReadSizes={2}), invariants=[], **LIVE)),
+        dict(name="only discarded-type extended data, more than a window: credited and adjusted, the sender finishes", module="Channel",
+             cfg=cfg_text(constants=dict(one, OpsA={"sendall_err"}, Codes={2}, SendN=5, ReadSizes={2}), invariants=INVS, **LIVE)),
+        dict(name="sensitivity: credit_silent (discarded bytes counted but no adjustment sent): the sender starves", module="Channel",
+             expect="NoStarvation",
+             cfg=cfg_text(constants=dict(one, OpsA={"sendall_err"}, Codes={2}, SendN=5, ReadSizes={2}, Mut="credit_silent"), invariants=INVS)),
         dict(name="liveness, pinned discard: the sender starves", module="Channel", expect="<liveness>",
              cfg=cfg_text(constants=dict(one, OpsA={"sendall_err"}, Codes={1, 2}, FixCredit=False, MaxCalls=2, SendN=5, ReadSizes={2}),
                           invariants=[], **LIVE)),
@@ -74,6 +79,11 @@ def model(c, runs):
 
 WINS = [32768, 32769, 40960, 65535, 70000]
 FIXED = [
+    # ONLY discarded-type extended data, for more than a full window, the readers blocked in recv / recv_stderr all the time
+    {"win": 32768, "pkt": 8192, "threads": {"a1": [("sendall_ext", 40000, 2)]}},
+    {"win": 32768, "pkt": 2 ** 32 - 1, "threads": {"a1": [("sendall_ext", 32769, 0)]}},
+    {"win": 32769, "pkt": 4096, "threads": {"a1": [("sendall_ext", 20000, 3)], "a2": [("sendall_ext", 20000, 5)]}},
+    {"win": 40960, "pkt": 16384, "threads": {"a1": [("sendall_ext", 100000, 4)]}},
     {"win": 32768, "pkt": 4096, "threads": {"a1": [("send_ext", 3000, 2), ("sendall", 40000)]}},
     {"win": 32768, "pkt": 32768, "threads": {"a1": [("sendall", 70000)], "a2": [("sendall_err", 40000)]}},
     {"win": 32768, "pkt": 2 ** 32 - 1, "threads": {"a1": [("sendall_err", 100000)]}},
@@ -94,6 +104,9 @@ def programs(rnd, n, quick=False):
         ns = rnd.choice([1, 2])
         for i in range(ns):
             ops = []
+            if rnd.random() < 0.25:       # nothing but discarded types, for more than the window
+                th["a%d" % (i + 1)] = [("sendall_ext", total // ns + win // ns + 1, rnd.choice([0, 2, 3, 4, 5]))]
+                continue
             if rnd.random() < 0.45:       # what a peer using other extended-data types would send (codes 0..5)
                 ops.append(("send_ext", rnd.choice([1, win // 10, win // 10 + 1, 5000]), rnd.choice([0, 2, 3, 4, 5])))
             ops.append((rnd.choice(["sendall", "sendall_err", "sendall"]), total // ns))
